@@ -35,7 +35,18 @@ mod verif_search {
         lengths.iter().map(|&l| if l == 0 { 0 } else { let v = next[l as usize]; next[l as usize] += 1; v }).collect()
     }
 
-    fn gen_stream(rng: &mut Rng) -> (Vec<u8>, Vec<u8>, String) {
+    /// n >= 2 code lengths <= maxlen of a complete prefix code (random splitting of leaves), in random order
+    fn rand_lengths(rng: &mut Rng, n: usize, maxlen: u32) -> Vec<u32> {
+        let mut leaves = vec![1u32, 1];
+        while leaves.len() < n {
+            let k = rng.below(leaves.len() as u32) as usize;
+            if leaves[k] < maxlen { leaves[k] += 1; let d = leaves[k]; leaves.push(d); }
+        }
+        for k in (1..leaves.len()).rev() { let j = rng.below(k as u32 + 1) as usize; leaves.swap(k, j); }
+        leaves
+    }
+
+    fn gen_stream(rng: &mut Rng, lenient: bool) -> (Vec<u8>, Vec<u8>, String) {
         let mut b = Bits::new();
         let mut text: Vec<u8> = vec![];
         let mut desc = String::new();
@@ -58,42 +69,79 @@ mod verif_search {
                 desc += &format!("[stored len={} pad={:#x}/{}]", len, pad, p);
                 continue;
             }
-            // code lengths: fixed code, or a complete 286/30 code announced in a dynamic header
+            // code lengths: the fixed code, the same shape announced in a dynamic header, or (2 of 3 dynamic blocks) random
+            // complete codes over a random symbol subset, announced with random run-length choices (16/17/18).
+            // `lenient` (C03 only) adds headers that zlib's inflate accepts although they are not complete codes or use
+            // symbol 16 right after a zero run: a lone 1-bit distance code, no distance code at all.
+            let shape = if kind == 2 { rng.below(3) } else { 0 };
+            let lone_dist: Option<usize> = if lenient && kind == 2 && shape != 0 && rng.below(3) == 0 { Some(rng.below(30) as usize) } else { None };
+            let no_dist = lenient && kind == 2 && shape != 0 && lone_dist.is_none() && rng.below(4) == 0;
             let (ll, dl): (Vec<u32>, Vec<u32>) = if kind == 1 {
                 ((0..288).map(|i| if i < 144 { 8 } else if i < 256 { 9 } else if i < 280 { 7 } else { 8 }).collect(), vec![5; 32])
-            } else {
+            } else if shape == 0 {
                 ((0..286).map(|i| if i < 144 { 8 } else if i < 256 { 9 } else if i < 280 { 7 } else if i < 284 { 8 } else { 7 }).collect(),
                  (0..30).map(|i| if i < 2 { 4 } else { 5 }).collect())
+            } else {
+                // literal/length code: the symbols the token generator may use, plus a random subset of the others
+                let dense = rng.below(2) == 0;
+                let used: Vec<usize> = (0..286).filter(|&i| (97..=100).contains(&i) || i >= 256 || (dense && rng.below(3) != 0) || (!dense && rng.below(40) == 0)).collect();
+                let lens = rand_lengths(rng, used.len(), 15);
+                let mut ll = vec![0u32; 286];
+                for (k, &sy) in used.iter().enumerate() { ll[sy] = lens[k]; }
+                let dl: Vec<u32> = if let Some(sy) = lone_dist { let mut d = vec![0u32; sy + 1]; d[sy] = 1; d }
+                    else if no_dist { vec![0u32] }
+                    else { let nd = 2 + rng.below(29) as usize; rand_lengths(rng, nd, 15) };
+                (ll, dl)
             };
             let (lc, dc) = (canon(&ll), canon(&dl));
             if kind == 1 { b.put(1, 2); desc += "[fixed"; } else {
-                b.put(2, 2); desc += "[dynamic";
-                b.put(286 - 257, 5); b.put(30 - 1, 5); b.put(19 - 4, 4);
-                // code-length alphabet: 13 symbols of 4 bits, 6 of 5 bits (complete)
-                let cl: Vec<u32> = (0..19).map(|s| if s < 13 { 4 } else { 5 }).collect();
-                let cc = canon(&cl);
-                for s in [16usize, 17, 18, 0, 8, 7, 9, 6, 10, 5, 11, 4, 12, 3, 13, 2, 14, 1, 15] { b.put(cl[s], 3); }
+                b.put(2, 2); desc += &format!("[dynamic shape={} nd={}{}{}", shape, dl.len(), if lone_dist.is_some() { " lone-dist" } else { "" }, if no_dist { " no-dist" } else { "" });
                 let all: Vec<u32> = ll.iter().chain(dl.iter()).cloned().collect();
+                // run-length items (symbol, extra value, extra bits)
+                let mut items: Vec<(usize, u32, u32)> = vec![];
                 let mut i = 0;
+                let mut prev_explicit = false;   // the previous item spelled a length out (symbol 0..15)
                 while i < all.len() {
                     let v = all[i];
                     let mut run = 1; while i + run < all.len() && all[i + run] == v { run += 1; }
-                    // random run-length choice: repeat the previous length 3..6 times, or spell the lengths out
-                    if i > 0 && all[i - 1] == v && run >= 3 && rng.below(3) != 0 {
-                        let r = 3 + rng.below(std::cmp::min(run as u32, 6) - 2);
-                        b.code(cc[16], cl[16]); b.put(r - 3, 2); i += r as usize;
-                    } else { b.code(cc[v as usize], cl[v as usize]); i += 1; }
+                    let choice = rng.below(3);
+                    // symbol 16 right after a 17/18 run means "repeat 0" in RFC 1951; only the lenient family uses that
+                    let may16 = i > 0 && all[i - 1] == v && run >= 3 && (v != 0 && true || prev_explicit || lenient);
+                    if v == 0 && run >= 11 && choice != 0 && shape != 0 {
+                        let r = 11 + rng.below(std::cmp::min(run as u32, 138) - 10); items.push((18, r - 11, 7)); i += r as usize; prev_explicit = false;
+                    } else if v == 0 && run >= 3 && choice != 0 && shape != 0 {
+                        let r = 3 + rng.below(std::cmp::min(run as u32, 10) - 2); items.push((17, r - 3, 3)); i += r as usize; prev_explicit = false;
+                    } else if may16 && (choice != 0 || shape == 0 && rng.below(3) != 0) && (v != 0 || shape != 0) {
+                        let r = 3 + rng.below(std::cmp::min(run as u32, 6) - 2); items.push((16, r - 3, 2)); i += r as usize;
+                    } else { items.push((v as usize, 0, 0)); i += 1; prev_explicit = true; }
                 }
+                // code-length code: complete over the symbols the items use
+                let mut cl = vec![0u32; 19];
+                if shape == 0 { for s in 0..19 { cl[s] = if s < 13 { 4 } else { 5 }; } } else {
+                    let mut usedc: Vec<usize> = (0..19).filter(|&s| items.iter().any(|it| it.0 == s)).collect();
+                    if usedc.len() < 2 { let extra = (0..19).find(|s| !usedc.contains(s)).unwrap(); usedc.push(extra); }
+                    let lens = rand_lengths(rng, usedc.len(), 7);
+                    for (k, &sy) in usedc.iter().enumerate() { cl[sy] = lens[k]; }
+                }
+                let cc = canon(&cl);
+                const ORDER: [usize; 19] = [16, 17, 18, 0, 8, 7, 9, 6, 10, 5, 11, 4, 12, 3, 13, 2, 14, 1, 15];
+                let mut hclen = 19; while hclen > 4 && cl[ORDER[hclen - 1]] == 0 && shape != 0 && rng.below(4) != 0 { hclen -= 1; }
+                b.put(ll.len() as u32 - 257, 5); b.put(dl.len() as u32 - 1, 5); b.put(hclen as u32 - 4, 4);
+                for &s in ORDER.iter().take(hclen) { b.put(cl[s], 3); }
+                for &(sy, ev, eb) in &items { b.code(cc[sy], cl[sy]); b.put(ev, eb); }
             }
+            let max_dist: u32 = if no_dist { 0 } else { let top = dl.len().min(30) - 1; std::cmp::min(32768, DB[top] + (1 << DE[top]) - 1) };
             let ntok = rng.below(40);
             for _ in 0..ntok {
-                let want_ref = !text.is_empty() && rng.below(3) == 0;
+                let lone_ok = match lone_dist { Some(sy) => DB[sy] as usize <= text.len(), None => true };
+                let want_ref = !text.is_empty() && rng.below(3) == 0 && max_dist > 0 && lone_ok;
                 if !want_ref {
                     let c = (rng.below(4) + 97) as usize; b.code(lc[c], ll[c]); text.push(c as u8);
                 } else {
                     let len = match rng.below(6) { 0 => 258, 1 => 3, 2 => 257, _ => 3 + rng.below(256) };
                     let dist = match rng.below(4) { 0 => 1, 1 => text.len() as u32, _ => 1 + rng.below(text.len() as u32) };
-                    let dist = std::cmp::min(dist, 32768);
+                    let dist = std::cmp::min(dist, max_dist);
+                    let dist = match lone_dist { Some(sy) => DB[sy] + rng.below(std::cmp::min(1 << DE[sy], text.len() as u32 - DB[sy] + 1)), None => dist };
                     if len == 258 && rng.below(2) == 0 {
                         b.code(lc[284], ll[284]); b.put(31, 5); desc += "i";
                     } else {
@@ -117,9 +165,10 @@ mod verif_search {
 
     fn hex(b: &[u8]) -> String { b.iter().map(|x| format!("{:02x}", x)).collect() }
 
+    static REJECTED: std::sync::atomic::AtomicUsize = std::sync::atomic::AtomicUsize::new(0);
     fn check_one(stream: &[u8], text: &[u8], c03: bool) -> Option<String> {
         // C03 speaks about accepted streams only; for C07 a rejected well-formed stream is a failure to round-trip
-        let contents = match parse_deflate(stream, 0) { Ok(c) => c, Err(e) => return if c03 { None } else { Some(format!("well-formed stream rejected by parse_deflate: {}", e)) } };
+        let contents = match parse_deflate(stream, 0) { Ok(c) => c, Err(e) => return if c03 { REJECTED.fetch_add(1, std::sync::atomic::Ordering::Relaxed); None } else { Some(format!("well-formed stream rejected by parse_deflate: {}", e)) } };
         if contents.plain_text != text { return Some(format!("C03: plaintext differs from the encoded plaintext (got {} bytes, expected {})", contents.plain_text.len(), text.len())); }
         if contents.compressed_size != stream.len() { return Some(format!("C03: compressed_size {} != stream length {}", contents.compressed_size, stream.len())); }
         if c03 { return None; }
@@ -191,7 +240,7 @@ mod verif_search {
         if let Some(m) = check_c05(&[]) { fail(&[], m); }
         // well-formed streams: every truncation, single-byte corruptions, noise tails
         for _ in 0..400 {
-            let (stream, _text, _desc) = gen_stream(&mut rng);
+            let (stream, _text, _desc) = gen_stream(&mut rng, false);
             for cut in 0..stream.len() { n += 1; if let Some(m) = check_c05(&stream[..cut]) { fail(&stream[..cut], m); } }
             for _ in 0..24 {
                 let mut d = stream.clone();
@@ -262,7 +311,7 @@ mod verif_search {
             DictionaryAddPolicy::AddFirstAndLast(1), DictionaryAddPolicy::AddFirstAndLast(32), DictionaryAddPolicy::AddFirstExcept4kBoundary, DictionaryAddPolicy::AddFirstWith32KBoundary];
         let matchings = [MatchingType::Greedy, MatchingType::Lazy { good_length: 4, max_lazy: 4 }, MatchingType::Lazy { good_length: 32, max_lazy: 258 }, MatchingType::Lazy { good_length: 8, max_lazy: 16 }];
         let mut streams: Vec<Vec<u8>> = Vec::new();
-        for _ in 0..40 { streams.push(gen_stream(&mut rng).0); }
+        for _ in 0..40 { streams.push(gen_stream(&mut rng, false).0); }
         for f in ["compressed_zlib_level1.deflate", "compressed_zlib_level9.deflate", "compressed_libdeflate_level6.deflate"] {
             let mut d = read_file(f); d.truncate(d.len()); streams.push(d);
         }
@@ -322,13 +371,13 @@ mod verif_search {
         }
         let n = if c02 { 2500 } else { 6000 };
         for k in 0..n {
-            let (stream, text, desc) = gen_stream(&mut rng);
+            let (stream, text, desc) = gen_stream(&mut rng, c03 && k % 2 == 1);
             let (s2, t2) = (stream.clone(), text.clone());
             let r = std::panic::catch_unwind(move || if c02 { check_c02(&s2) } else { check_one(&s2, &t2, c03) });
             let msg = match r { Ok(None) => continue, Ok(Some(m)) => m, Err(_) => "panic".to_string() };
             println!("FAILING-INPUT property={} what={:?} stream={} blocks={} case={}", if c02 { "c02" } else if c03 { "c03" } else { "c07" }, msg, hex(&stream), desc, k);
             panic!("search: {}", msg);
         }
-        println!("SEARCH-DONE property={} no failing input in {} generated streams", if c02 { "c02" } else if c03 { "c03" } else { "c07" }, n);
+        println!("SEARCH-DONE property={} no failing input in {} generated streams ({} rejected by the library: C03 is about accepted streams only)", if c02 { "c02" } else if c03 { "c03" } else { "c07" }, n, REJECTED.load(std::sync::atomic::Ordering::Relaxed));
     }
 }
